@@ -437,46 +437,77 @@ pub fn run(tier: Tier) -> i32 {
     report.set("rule", "for every front-end with a segment table (22 comment languages, the harper-ls compositions, Markdown x2, git-commit, HTML, Typst, Literate Haskell): every sequence of <= K segments (code, code with a string literal holding sentinels and multi-byte text, line/block/doc comments, ignored comments, blank; markup: paragraph, heading, list, emphasis, link, table, inline code, math, fenced/indented code, raw HTML, comments, scripts) x indentation {none, two spaces, tab} x {LF, CRLF}; the generator records the char offset of every prose word and every non-prose region; oracle: each prose word is a Word token at exactly its span, no Word/Number/Hostname/Email token overlaps a non-prose region or a sentinel. Non-trivial = file with at least one prose word and one non-prose region");
     let fes = frontends::all();
     let curated = FstDictionary::curated();
-    let k = tier.pick(3, 4);
-    // enumerate jobs: (front-end, segment sequence, indent, newline)
-    let mut jobs: Vec<(usize, Vec<usize>, usize, usize)> = vec![];
+    let k = tier.pick(3, 5);
+    // index space: (front-end, segment sequence, indent, newline), decoded on the fly
     let indents = ["", "  ", "\t"];
     let nls = ["\n", "\r\n"];
+    struct Block {
+        fi: usize,
+        nsegs: u64,
+        nind: u64,
+        nseq: u64, // sequences of length 1..=k
+        start: u64,
+    }
+    let mut blocks: Vec<Block> = vec![];
+    let mut total = 0u64;
     let mut tables = 0;
     for (fi, fe) in fes.iter().enumerate() {
         let Some(row) = row_for(fe) else { continue };
         tables += 1;
-        let n = row.segs.len();
-        let seqs = crate::e2::sequences(n, k);
-        for s in seqs {
-            if s.is_empty() {
-                continue;
-            }
-            for ii in 0..(if row.indentable { 3 } else { 1 }) {
-                for ni in 0..2 {
-                    // the deepest level only with LF and no indentation (bound, not sample)
-                    if s.len() == k && (ii != 0 || ni != 0) && tier == Tier::Quick {
-                        continue;
-                    }
-                    jobs.push((fi, s.clone(), ii, ni));
-                }
-            }
+        let n = row.segs.len() as u64;
+        let mut nseq = 0u64;
+        let mut p = 1u64;
+        for _ in 1..=k {
+            p *= n;
+            nseq += p;
         }
+        let nind = if row.indentable { 3 } else { 1 };
+        blocks.push(Block { fi, nsegs: n, nind, nseq, start: total });
+        total += nseq * nind * 2;
     }
     report.set("front_ends_with_a_segment_table", tables as u64);
     if tables < 28 {
         report.machinery(format!("only {tables} front-ends have a segment table"));
     }
-    let nj = jobs.len() as u64;
-    let res = par_chunks(nj, 400, ncpu(), |s, e| {
+    let nj = total;
+    let decode = |j: u64| -> (usize, Vec<usize>, usize, usize) {
+        let b = blocks.iter().rev().find(|b| b.start <= j).unwrap();
+        let mut r = j - b.start;
+        let ni = (r % 2) as usize;
+        r /= 2;
+        let ii = (r % b.nind) as usize;
+        r /= b.nind;
+        // r indexes sequences in shortlex order
+        let mut len = 1usize;
+        let mut p = b.nsegs;
+        while r >= p {
+            r -= p;
+            p *= b.nsegs;
+            len += 1;
+        }
+        let mut seq = vec![0usize; len];
+        for d in (0..len).rev() {
+            seq[d] = (r % b.nsegs) as usize;
+            r /= b.nsegs;
+        }
+        (b.fi, seq, ii, ni)
+    };
+    let res = par_chunks(nj, 2000, ncpu(), |s, e| {
         let mut viols: Vec<Violation> = vec![];
         let mut nontrivial = 0u64;
+        let mut evaluated = 0u64;
         let mut outcomes: BTreeSet<u64> = BTreeSet::new();
+        let rows: Vec<Option<Row>> = fes.iter().map(row_for).collect();
         for j in s..e {
-            let (fi, seq, ii, ni) = &jobs[j as usize];
-            let fe = &fes[*fi];
-            let row = row_for(fe).unwrap();
-            let g = generate(&row, seq, indents[*ii], nls[*ni], fe.class, fe.name.contains("ignore_link_title"), fe.name.contains("isolate"));
+            let (fi, seq, ii, ni) = decode(j);
+            // quick tier: the deepest level only with LF and no indentation (a bound, not a sample)
+            if tier == Tier::Quick && seq.len() == k && (ii != 0 || ni != 0) {
+                continue;
+            }
+            evaluated += 1;
+            let fe = &fes[fi];
+            let row = rows[fi].as_ref().unwrap();
+            let g = generate(row, &seq, indents[ii], nls[ni], fe.class, fe.name.contains("ignore_link_title"), fe.name.contains("isolate"));
             if !g.expected.is_empty() && !g.forbidden.is_empty() {
                 nontrivial += 1;
             }
@@ -486,21 +517,24 @@ pub fn run(tier: Tier) -> i32 {
                 let full = format!("{lang}:{sig}:{}", g.description.join("+"));
                 let short = format!("{lang}:{sig}");
                 if viols.iter().filter(|v| v.sig.starts_with(&short)).count() < 2 {
-                    viols.push(Violation { sig: short.clone(), case: json!({"engine":"E1","front_end": fe.name, "segments": g.description, "indent": indents[*ii], "line_ending": if *ni == 0 {"LF"} else {"CRLF"}, "text": g.text}), detail: json!({"problem": detail, "class": full}) });
+                    viols.push(Violation { sig: short.clone(), case: json!({"engine":"E1","front_end": fe.name, "segments": g.description, "indent": indents[ii], "line_ending": if ni == 0 {"LF"} else {"CRLF"}, "text": g.text}), detail: json!({"problem": detail, "class": full}) });
                 } else {
                     viols.push(Violation { sig: short, case: json!({"pad":"further case ....................................................................................................................................................................................................................................................................................................................."}), detail: json!({}) });
                 }
             }
         }
-        (nontrivial, outcomes, viols)
+        (nontrivial, evaluated, outcomes, viols)
     });
-    for (nt, o, vs) in res {
+    let mut evaluated = 0u64;
+    for (nt, ev, o, vs) in res {
         report.add("distinct_nontrivial", nt);
+        evaluated += ev;
         report.outcomes.extend(o);
         for v in vs {
             report.violation(v);
         }
     }
+    let nj = evaluated;
     report.add("evaluations", nj);
     report.set("max_segments", k as u64);
     report.set("exhaustive", true);
